@@ -54,7 +54,7 @@ func Express(wl Workload, k string, r int) []*resource.Info {
 			n = 1
 		}
 		for i := 0; i < n; i++ {
-			inf := InfoPod(wl.NS, fmt.Sprintf("%s-pod%d", wl.Name, i), wl.Name, wl.Labels, wl.Ports)
+			inf := InfoPodIPs(wl.NS, fmt.Sprintf("%s-pod%d", wl.Name, i), wl.Name, wl.Labels, wl.Ports, PodHostIP(i), PodIP(i))
 			if k == "PodsExtraOwner" {
 				md := inf.Object.(*unstructured.Unstructured).Object["metadata"].(map[string]interface{})
 				refs := md["ownerReferences"].([]interface{})
